@@ -46,6 +46,10 @@ pub enum Packing {
     /// one PDU per record, but the second bitmap PDU is 20 kB long (two-byte length form with bit 14 set; it spans two
     /// TLS records)
     BigSecondPdu,
+    /// after the first bitmap PDU the server re-activates the session: deactivate-all + demand-active in ONE record,
+    /// then its four finalization PDUs and the second bitmap PDU in ONE record, then the third bitmap PDU. The receive thread
+    /// itself runs the activation; nothing may stay in the TLS layer on the way
+    ReactivationPacked,
 }
 
 #[derive(Clone, Copy, Debug, Serialize, PartialEq)]
@@ -73,38 +77,49 @@ pub struct Script {
     pub nla: bool,
     /// the session-ending PDU shares the TLS record of the last bitmap PDU(s)
     pub end_in_last_record: bool,
+    /// a further bitmap PDU (number 99) follows the session-ending PDU in the same TLS record: the session is over all
+    /// the same, the thread must stop (whether that PDU is still forwarded is not judged)
+    pub after_end: bool,
 }
 
 pub fn scripts() -> Vec<Script> {
     let mut v = vec![];
-    for packing in [Packing::OnePerRecord, Packing::TwoThenOne, Packing::ThreeInOne, Packing::PduAcrossTwoRecords, Packing::RecordAcrossTwoSegments, Packing::OnePerRecordWithPauses, Packing::EmptyPdusInside, Packing::BigSecondPdu] {
-        v.push(Script { packing, end: End::None, end_after: 3, preloaded: false, nla: false, end_in_last_record: false });
+    for packing in [Packing::OnePerRecord, Packing::TwoThenOne, Packing::ThreeInOne, Packing::PduAcrossTwoRecords, Packing::RecordAcrossTwoSegments, Packing::OnePerRecordWithPauses, Packing::EmptyPdusInside, Packing::BigSecondPdu, Packing::ReactivationPacked] {
+        v.push(Script { packing, end: End::None, end_after: 3, preloaded: false, nla: false, end_in_last_record: false, after_end: false });
         for end in [End::DisconnectUltimatum, End::CloseNotify, End::AbruptClose, End::UndecodableRdpKind, End::UndecodableIoKind, End::UndecodableEmptyFrame] {
             for end_after in 0..=3 {
-                v.push(Script { packing, end, end_after, preloaded: false, nla: false, end_in_last_record: false });
+                v.push(Script { packing, end, end_after, preloaded: false, nla: false, end_in_last_record: false, after_end: false });
             }
         }
     }
     // a PDU left in the TLS layer by whoever read last before the thread was started
     for packing in [Packing::OnePerRecord, Packing::TwoThenOne, Packing::PduAcrossTwoRecords] {
-        v.push(Script { packing, end: End::None, end_after: 3, preloaded: true, nla: false, end_in_last_record: false });
-        v.push(Script { packing, end: End::None, end_after: 1, preloaded: true, nla: false, end_in_last_record: false });
+        v.push(Script { packing, end: End::None, end_after: 3, preloaded: true, nla: false, end_in_last_record: false, after_end: false });
+        v.push(Script { packing, end: End::None, end_after: 1, preloaded: true, nla: false, end_in_last_record: false, after_end: false });
         for end in [End::DisconnectUltimatum, End::AbruptClose, End::CloseNotify] {
-            v.push(Script { packing, end, end_after: 2, preloaded: true, nla: false, end_in_last_record: false });
-            v.push(Script { packing, end, end_after: 1, preloaded: true, nla: false, end_in_last_record: false });
+            v.push(Script { packing, end, end_after: 2, preloaded: true, nla: false, end_in_last_record: false, after_end: false });
+            v.push(Script { packing, end, end_after: 1, preloaded: true, nla: false, end_in_last_record: false, after_end: false });
         }
     }
     // NLA sessions (the pending-data query goes through another protocol branch of the X.224 layer)
     for packing in [Packing::OnePerRecord, Packing::TwoThenOne, Packing::ThreeInOne] {
-        v.push(Script { packing, end: End::None, end_after: 3, preloaded: false, nla: true, end_in_last_record: false });
-        v.push(Script { packing, end: End::DisconnectUltimatum, end_after: 2, preloaded: false, nla: true, end_in_last_record: false });
-        v.push(Script { packing, end: End::CloseNotify, end_after: 2, preloaded: false, nla: true, end_in_last_record: false });
+        v.push(Script { packing, end: End::None, end_after: 3, preloaded: false, nla: true, end_in_last_record: false, after_end: false });
+        v.push(Script { packing, end: End::DisconnectUltimatum, end_after: 2, preloaded: false, nla: true, end_in_last_record: false, after_end: false });
+        v.push(Script { packing, end: End::CloseNotify, end_after: 2, preloaded: false, nla: true, end_in_last_record: false, after_end: false });
     }
     // the PDU that ends the session rides in the record of the last bitmap PDU(s)
     for packing in [Packing::OnePerRecord, Packing::TwoThenOne, Packing::ThreeInOne] {
         for end in [End::DisconnectUltimatum, End::UndecodableRdpKind, End::UndecodableIoKind, End::UndecodableEmptyFrame] {
             for end_after in [1usize, 2, 3] {
-                v.push(Script { packing, end, end_after, preloaded: false, nla: false, end_in_last_record: true });
+                v.push(Script { packing, end, end_after, preloaded: false, nla: false, end_in_last_record: true, after_end: false });
+            }
+        }
+    }
+    // something still follows the session-ending PDU in its TLS record
+    for packing in [Packing::OnePerRecord, Packing::TwoThenOne] {
+        for end in [End::DisconnectUltimatum, End::UndecodableRdpKind, End::UndecodableIoKind, End::UndecodableEmptyFrame] {
+            for (end_after, end_in_last_record) in [(0usize, false), (2, false), (2, true)] {
+                v.push(Script { packing, end, end_after, preloaded: false, nla: false, end_in_last_record, after_end: true });
             }
         }
     }
@@ -547,6 +562,10 @@ fn build_actions(script: &Script, peer: &mut TlsPeer, st: &mut State) -> Vec<Env
         End::UndecodableEmptyFrame => Some(vec![0x03, 0x00, 0x00, 0x04]),
         _ => None,
     };
+    let end_plain: Option<Vec<u8>> = match (end_plain, script.after_end) {
+        (Some(e), true) => Some([e, bitmap_pdu(99)].concat()),
+        (e, _) => e,
+    };
     let ride = script.end_in_last_record && end_plain.is_some() && !pdus.is_empty();
     if ride {
         // glue the session-ending PDU to the last bitmap PDU: they then always travel in the same record
@@ -573,6 +592,34 @@ fn build_actions(script: &Script, peer: &mut TlsPeer, st: &mut State) -> Vec<Env
                 // one pause (voluntary yield of the sender) after the first record
                 if script.packing == Packing::OnePerRecordWithPauses && actions.len() == 1 {
                     actions.push(EnvAction::Yield);
+                }
+            }
+        }
+        Packing::ReactivationPacked => {
+            use vref::share;
+            let sdi = |d: &[u8]| framing::tpkt(&framing::x224_dt(&mcs::send_data_indication(1002, 1003, d)));
+            let (old_sid, new_sid, uid) = (0x0001_03EAu32, 0x0002_03EAu32, 1007u16);
+            for (i, p) in pdus.iter().enumerate() {
+                if i == 1 {
+                    // rode in the record of the finalization PDUs
+                    continue;
+                }
+                push_record(p, 1, false, &mut actions, st, &mut raw_off, &mut pdus_done);
+                if i == 0 {
+                    let r1 = [sdi(&share::deactivate_all(old_sid, 1002)), sdi(&share::demand_active(new_sid, 1002, b"RDP\0", &share::minimal_caps(), 0))].concat();
+                    push_record(&r1, 0, false, &mut actions, st, &mut raw_off, &mut pdus_done);
+                    let r2 = [
+                        sdi(&share::synchronize(new_sid, 1002, uid)),
+                        sdi(&share::control(new_sid, 1002, share::CTRLACTION_COOPERATE, 0, 0)),
+                        sdi(&share::control(new_sid, 1002, share::CTRLACTION_GRANTED_CONTROL, uid, 0x03EA)),
+                        sdi(&share::font_map(new_sid, 1002)),
+                    ]
+                    .concat();
+                    // the second bitmap PDU (if the script has one) follows the font map in the same record
+                    match pdus.get(1) {
+                        Some(b) => push_record(&[r2, b.clone()].concat(), 1, false, &mut actions, st, &mut raw_off, &mut pdus_done),
+                        None => push_record(&r2, 0, false, &mut actions, st, &mut raw_off, &mut pdus_done),
+                    }
                 }
             }
         }
@@ -620,7 +667,7 @@ fn build_actions(script: &Script, peer: &mut TlsPeer, st: &mut State) -> Vec<Env
     match script.end {
         End::None => {}
         End::DisconnectUltimatum => {
-            let f = framing::tpkt(&framing::x224_dt(&mcs::disconnect_provider_ultimatum(3)));
+            let f = end_plain.clone().unwrap();
             let rec = peer.encrypt(&f);
             raw_off += rec.len();
             st.end_offset = Some(raw_off);
@@ -628,7 +675,7 @@ fn build_actions(script: &Script, peer: &mut TlsPeer, st: &mut State) -> Vec<Env
         }
         End::UndecodableRdpKind => {
             // MCS PDU with an opcode the client rejects (RdpError kind)
-            let f = framing::tpkt(&framing::x224_dt(&[0x00, 0x00, 0x00]));
+            let f = end_plain.clone().unwrap();
             let rec = peer.encrypt(&f);
             raw_off += rec.len();
             st.end_offset = Some(raw_off);
@@ -636,14 +683,14 @@ fn build_actions(script: &Script, peer: &mut TlsPeer, st: &mut State) -> Vec<Env
         }
         End::UndecodableIoKind => {
             // send-data indication cut inside its header (I/O kind of decoding error)
-            let f = framing::tpkt(&framing::x224_dt(&[26 << 2]));
+            let f = end_plain.clone().unwrap();
             let rec = peer.encrypt(&f);
             raw_off += rec.len();
             st.end_offset = Some(raw_off);
             actions.push(EnvAction::Push(rec));
         }
         End::UndecodableEmptyFrame => {
-            let rec = peer.encrypt(&[0x03, 0x00, 0x00, 0x04]);
+            let rec = peer.encrypt(&end_plain.clone().unwrap());
             raw_off += rec.len();
             st.end_offset = Some(raw_off);
             actions.push(EnvAction::Push(rec));
@@ -811,6 +858,10 @@ fn execution(script: Script) {
     }
     let stalled = st.violations.iter().any(|v| v.0.starts_with("stall") || v.0.starts_with("spins") || v.0.starts_with("did-not-stop"));
     let want: Vec<u16> = (0..script.end_after as u16).collect();
+    // (a PDU that follows the end of the session in its record may or may not have been forwarded)
+    if script.after_end && st.events.last() == Some(&99) {
+        st.events.pop();
+    }
     if !stalled && st.events != want {
         let got = st.events.clone();
         violation(&mut st, "bitmap-events-lost-or-reordered", format!("forwarded {:?}, sent {:?}", got, want));
@@ -924,7 +975,7 @@ impl C20 {
 
 /// the core scripts: every packing without end, and every packing x every end kind after two PDUs
 pub fn is_core(s: &Script) -> bool {
-    s.end == End::None || s.end_after == 2
+    (s.end == End::None || s.end_after == 2) && !(s.after_end && s.end_in_last_record) && !(matches!(s.packing, Packing::BigSecondPdu | Packing::ReactivationPacked) && !matches!(s.end, End::None | End::DisconnectUltimatum | End::AbruptClose))
 }
 
 /// per-run directory (the parent names it in VERIF_C20_STATS, its workers inherit the variable): two runs of this
@@ -934,6 +985,39 @@ pub fn stats_dir() -> std::path::PathBuf {
         Ok(d) => std::path::PathBuf::from(d),
         Err(_) => std::path::PathBuf::from(format!("{}/.work/C20-stats", vcheck::root())),
     }
+}
+
+/// The model gives the receive thread a descriptor whose reads block until bytes arrive ("with and without pauses":
+/// however long the server pauses, inside a PDU or between two). That is an assumption about the socket `main` opens:
+/// here the real `tcp_from_args` connects to a loopback listener and the options of the socket it returns are read back.
+pub const ASSUMPTION_INDEX: u64 = 1_000_000;
+
+pub fn socket_assumption() -> Outcome {
+    use std::os::unix::io::AsRawFd;
+    let listener = match std::net::TcpListener::bind("127.0.0.1:0") {
+        Ok(l) => l,
+        Err(e) => return Outcome::pass("socket-assumption:loopback-unavailable", false).with_note(format!("loopback listener unavailable ({}): socket options not checked", e)),
+    };
+    let port = listener.local_addr().map(|a| a.port()).unwrap_or(0);
+    let app = clap::App::new("verif")
+        .arg(clap::Arg::with_name("host").long("host").takes_value(true))
+        .arg(clap::Arg::with_name("port").long("port").takes_value(true).default_value("3389"));
+    let args = app.get_matches_from(vec!["verif".to_string(), "--host".into(), "127.0.0.1".into(), "--port".into(), port.to_string()]);
+    let tcp = match crate::mstsc_plain::verif_export::tcp(&args) {
+        Ok(t) => t,
+        Err(e) => return Outcome::fail("machinery", "machinery", format!("tcp_from_args against a loopback listener: {:?}", e)),
+    };
+    let flags = unsafe { libc::fcntl(tcp.as_raw_fd(), libc::F_GETFL) };
+    if let Ok(Some(t)) = tcp.read_timeout() {
+        return Outcome::fail("mismatch", "receive-socket-gives-up-after-a-timeout", format!("tcp_from_args returns a socket with a read timeout of {:?}: a PDU whose parts arrive further apart makes the blocking read fail and the receive thread leave a live session", t));
+    }
+    if let Ok(Some(t)) = tcp.write_timeout() {
+        return Outcome::fail("mismatch", "socket-write-gives-up-after-a-timeout", format!("tcp_from_args returns a socket with a write timeout of {:?}", t));
+    }
+    if flags >= 0 && flags & libc::O_NONBLOCK != 0 {
+        return Outcome::fail("mismatch", "receive-socket-is-non-blocking", "tcp_from_args returns a non-blocking socket: a read between two parts of a PDU fails with WouldBlock".to_string());
+    }
+    Outcome::pass("socket-assumption:blocking-without-timeouts", true)
 }
 
 impl Prop for C20 {
@@ -959,6 +1043,8 @@ impl Prop for C20 {
                 }
             }
         }
+        // last case: the environment assumption of the model, checked against the code (see `socket_assumption`)
+        self.cases.push((usize::MAX, 0));
         Ok(())
     }
     fn n_cases(&self) -> u64 {
@@ -966,6 +1052,9 @@ impl Prop for C20 {
     }
     fn describe(&self, idx: u64) -> Value {
         let (si, b) = self.cases[idx as usize];
+        if si == usize::MAX {
+            return json!({"idx": idx, "environment_assumption": "the socket opened by tcp_from_args blocks in read and write without a timeout, as the modelled descriptor does"});
+        }
         json!({"idx": idx, "script_index": si, "script": scripts()[si], "preemption_bound": b})
     }
     fn rule(&self) -> String {
@@ -985,6 +1074,16 @@ impl Prop for C20 {
     }
     fn run_case(&mut self, idx: u64) -> Outcome {
         let (si, bound) = self.cases[idx as usize];
+        if si == usize::MAX {
+            let o = socket_assumption();
+            let viol: Vec<Value> = match o.violation.as_ref().map(|v| (v.sig.clone(), v.detail.clone())) {
+                Some((sig, detail)) => vec![json!({"sig": sig, "choices": [], "detail": detail, "schedules": 1})],
+                None => vec![],
+            };
+            let _ = std::fs::create_dir_all(stats_dir());
+            let _ = std::fs::write(stats_dir().join(format!("{}.json", idx)), json!({"idx": idx, "script_index": ASSUMPTION_INDEX, "bound": 0, "script": {"environment_assumption": "socket of tcp_from_args"}, "schedules": 0, "points": 0, "states": 0, "transitions": 0, "max_preemptions": 0, "violations": viol, "error": null}).to_string());
+            return o;
+        }
         let script = scripts()[si];
         let st = explore(script, bound, None);
         let _ = std::fs::create_dir_all(stats_dir());
